@@ -358,18 +358,22 @@ class _NumericOperationsImpl(OperationsBlock):
     @validate_core
     def argmax(self, x, axis=None, keepdims=False):
         if axis is None:
-            reshaped_x = ndx.reshape(x, [-1])._core()
+            reshaped_x = _via_i64_f64(
+                lambda x: opx.arg_max(x, axis=0, keepdims=False),
+                [ndx.reshape(x, [-1])],
+                cast_return=False,
+            )._core()
             if keepdims:
                 return from_corearray(
                     opx.reshape(
-                        opx.arg_max(reshaped_x, axis=0, keepdims=False),
+                        reshaped_x,
                         opx.const([1 for x in range(x.ndim)], dtype=dtypes.int64),
                     )
                 )
             else:
                 return from_corearray(
                     opx.reshape(
-                        opx.arg_max(reshaped_x, axis=0, keepdims=False),
+                        reshaped_x,
                         opx.const([], dtype=dtypes.int64),
                     )
                 )
@@ -382,18 +386,22 @@ class _NumericOperationsImpl(OperationsBlock):
     @validate_core
     def argmin(self, x, axis=None, keepdims=False):
         if axis is None:
-            reshaped_x = ndx.reshape(x, [-1])._core()
+            reshaped_x = _via_i64_f64(
+                lambda x: opx.arg_min(x, axis=0, keepdims=False),
+                [ndx.reshape(x, [-1])],
+                cast_return=False,
+            )._core()
             if keepdims:
                 return from_corearray(
                     opx.reshape(
-                        opx.arg_min(reshaped_x, axis=0, keepdims=False),
+                        reshaped_x,
                         opx.const([1 for x in range(x.ndim)], dtype=dtypes.int64),
                     )
                 )
             else:
                 return from_corearray(
                     opx.reshape(
-                        opx.arg_min(reshaped_x, axis=0, keepdims=False),
+                        reshaped_x,
                         opx.const([], dtype=dtypes.int64),
                     )
                 )
